@@ -101,7 +101,20 @@ def run(env, rep):
         # which fields of the header being written (its value when the function returns) the path's state proves equal to the
         # same field of the previous header: the comparison may be on the field itself or on the value just stored in it
         out = []
-        cur, prev = State().read((it.L(1), ())), State().read((it.L(2), ()))
+        # the header being written and the stored previous header: the first and the last parameter that refer to a ChunkHeader
+        hp = [i for i in range(1, ghf.arg_count + 1) if "ChunkHeader" in str(ghf.locals[i]["t"].get("s", "")) and "Format" not in str(ghf.locals[i]["t"].get("s", ""))]
+        ci, pi_ = (hp[0], hp[-1]) if len(hp) >= 2 else (1, 2)
+        cur, prev = State().read((it.L(ci), ())), State().read((it.L(pi_), ()))
+        # an integer parameter found equal to a field of the previous header stands for the value the caller puts into that field of
+        # the header being written (the delta handed over separately): recorded as ("via-param", field, index), verified at the call site
+        for i in range(1, ghf.arg_count + 1):
+            if i in hp or ghf.locals[i]["t"].get("k") not in ("uint", "int"):
+                continue
+            pv = State().read((it.L(i), ()))
+            for f in all_req:
+                pr = facts.field_proj(prog, HDR, [f])
+                if pr is not None and facts.equal(S, pv, S.read((("P", prev), pr))):
+                    out.append("via-param:%s:%d" % (f, i))
         for f in all_req:
             pr = facts.field_proj(prog, HDR, [f])
             if pr is None:
@@ -131,6 +144,30 @@ def run(env, rep):
                 equal = (mm.group(2) == "Ne" and t[2] == "0") or (mm.group(2) == "Eq" and t[2].startswith("other"))
                 if equal:
                     eq.add(mm.group(1))
+        # a field compared through a parameter counts if, at every call of get_header_format in add_chunk, the argument for that
+        # parameter is the value the emitted (compressed) header carries in that field
+        for e in sorted(x for x in eq if str(x).startswith("via-param:")):
+            _, f, i = e.split(":")
+            ok_site, n_site = True, 0
+            fidx = {"timestamp_field": 2}.get(f)
+            for ap in m.add_chunk_paths:
+                calls = [t for t in ap if t[0] == "call" and t[1].endswith("get_header_format")]
+                if not calls or fidx is None or len(calls[0][2]) < int(i):
+                    continue
+                arg = calls[0][2][int(i) - 1]
+                emitted = [t for t in ap if t[0] == "call" and t[1].endswith("add_initial_timestamp") and len(t[2]) >= 2]
+                if not emitted:
+                    continue
+                fields = emitted[0][2][1].lstrip("&").split(", ")
+                fmt_ap = chunk.format_on_path(m, ap)
+                if fmt_ap == m.variants[0] or len(fields) <= fidx:
+                    continue
+                n_site += 1
+                if fields[fidx].strip("()") != arg.strip("()"):
+                    ok_site = False
+            if ok_site and n_site >= 1:
+                eq.add(f)
+        eq = {x for x in eq if not str(x).startswith("via-param:")}
         n3 += 1
         missing = sorted(set(req[str(k)]) - eq)
         rep.check("C07.R3", "compress:fmt%d" % k, not missing, "format %d is returned only after %s were found equal to the previous header" % (k, sorted(eq)),
@@ -149,9 +186,9 @@ def run(env, rep):
                 why.append("constant format %s is used on a path that is not a continuation chunk" % fmt)
         for t in p:
             if t[0] == "call" and t[1].endswith("get_header_format") and len(t[2]) >= 2:
-                if not re.match(r"^&?\*?HashMap::get\(load\(\*?_?\.?.*previous_headers\),call\(serializer::get_csid_for_message_type\)\) as Some\.0$", t[2][1]):
+                if not any(re.match(r"^&?\*?HashMap::get\(load\(\*?_?\.?.*previous_headers\),call\(serializer::get_csid_for_message_type\)\) as Some\.0$", a_) for a_ in t[2][1:]):
                     ok_prev = False
-                    why.append("get_header_format compares with %s" % t[2][1][:120])
+                    why.append("get_header_format compares with %s" % t[2][-1][:120])
     rep.check("C07.R3", "compress:only-vs-stored-header", ok_cont and ok_prev, "compressed formats come from the comparison with previous_headers[csid] or are Empty on continuation chunks",
               "; ".join(sorted(set(why))[:2]), m.b["add_chunk"].span)
     # ------------------------------------------------------------------ R4
